@@ -437,7 +437,7 @@ pub fn exp_c07(e: &mut Exp) {
 // ---------------------------------------------------------------------------------------------
 // C08: (epsilon, delta) point-query guarantee of the count-min sketch
 pub fn exp_c08(e: &mut Exp) {
-    let seeds: u64 = if e.scale > 1 { 400 } else { 120 };
+    let seeds: u64 = if e.scale > 1 { 3000 } else { 600 };
     let grid: &[(f64, f64)] = if e.scale > 1 {
         &[(0.1, 0.5), (0.05, 0.1), (0.02, 0.01), (0.2, 0.9), (0.01, 0.3), (0.3, 0.05), (0.005, 0.2)]
     } else {
@@ -764,6 +764,156 @@ pub fn exp_c11(e: &mut Exp) {
             // hashbrown: (16-byte key + 16-byte entry + 1 control byte) per slot, load <= 7/8, power-of-two growth
             let doc = entries * 34 * 2;
             check_mem(e, &format!("lossy width={} after {} adds", width, n), crate::alloc::live() - base, doc, 512);
+        }
+    }
+}
+
+
+// ---------------------------------------------------------------------------------------------
+// Glue around the modelled core: the convenience constructors with the default SipHash hasher
+// delegate to the generic ones, and `Extend` is repeated add/insert. Compared on the real crate
+// alone (the model takes hashes as parameters, so it cannot see SipHash).
+pub fn exp_glue(e: &mut Exp, prop: &str) {
+    use std::collections::hash_map::DefaultHasher;
+    use std::hash::BuildHasherDefault;
+    type Bh = BuildHasherDefault<DefaultHasher>;
+    let rounds = 20 * e.scale;
+    for _ in 0..rounds {
+        let keys: Vec<u64> = (0..60).map(|_| e.rng.below(200)).collect();
+        let probes: Vec<u64> = (0..200).collect();
+        match prop {
+            "C01" | "C07" => {
+                let (m, k) = (e.rng.range(8, 400) as usize, e.rng.range(1, 5) as usize);
+                let mut a = BloomFilter::<u64>::with_params(m, k);
+                let mut b = BloomFilter::<u64, Bh>::with_params_and_hash(m, k, Bh::default());
+                let mut c = BloomFilter::<u64>::with_params(m, k);
+                for x in &keys {
+                    let ra = a.insert(x).unwrap();
+                    let rb = b.insert(x).unwrap();
+                    if ra != rb {
+                        e.fails.push(format!("bloom with_params({}, {}) and with_params_and_hash(default) disagree on insert({})", m, k, x));
+                    }
+                }
+                c.extend(keys.iter().cloned());
+                for y in &probes {
+                    if a.query(y) != b.query(y) || a.query(y) != c.query(y) {
+                        e.fails.push(format!("bloom m={} k={}: convenience constructor / Extend disagree with the generic path on query({})", m, k, y));
+                        break;
+                    }
+                }
+                if a.len() != c.len() || a.m() != m || a.k() != k {
+                    e.fails.push(format!("bloom m={} k={}: getters / len differ between constructors", m, k));
+                }
+                let (q, r) = (e.rng.range(2, 8) as usize, e.rng.range(2, 10) as usize);
+                let mut a = QuotientFilter::<u64>::with_params(q, r);
+                let mut b = QuotientFilter::<u64, Bh>::with_params_and_hash(q, r, Bh::default());
+                for x in &keys {
+                    let ra = a.insert(x).map_err(|_| ());
+                    let rb = b.insert(x).map_err(|_| ());
+                    if ra != rb {
+                        e.fails.push(format!("quotient with_params({}, {}) vs with_params_and_hash(default): insert({}) differs", q, r, x));
+                    }
+                }
+                if a.len() != b.len() || probes.iter().any(|y| a.query(y) != b.query(y)) {
+                    e.fails.push(format!("quotient q={} r={}: convenience constructor disagrees with the generic path", q, r));
+                }
+                let (bs, nb, lf) = (*e.rng.pick(&[2usize, 4]), 1usize << e.rng.range(1, 5), *e.rng.pick(&[4usize, 8, 16]));
+                let seed = e.rng.next();
+                let mut a = CuckooFilter::<u64, ScriptRng>::with_params(ScriptRng::new(seed), bs, nb, lf);
+                let mut b = CuckooFilter::<u64, ScriptRng, Bh>::with_params_and_hash(ScriptRng::new(seed), bs, nb, lf, Bh::default());
+                for x in &keys {
+                    let ra = a.insert(x).map_err(|_| ());
+                    let rb = b.insert(x).map_err(|_| ());
+                    if ra != rb {
+                        e.fails.push(format!("cuckoo with_params vs with_params_and_hash(default): insert({}) differs", x));
+                    }
+                }
+                if a.len() != b.len() || probes.iter().any(|y| a.query(y) != b.query(y)) {
+                    e.fails.push("cuckoo: convenience constructor disagrees with the generic path".into());
+                }
+                e.evals += 3;
+            }
+            "C02" | "C08" => {
+                let (w, d) = (e.rng.range(1, 40) as usize, e.rng.range(1, 6) as usize);
+                let mut a = CountMinSketch::<u64, u32>::with_params(w, d);
+                let mut b = CountMinSketch::<u64, u32, Bh>::with_params_and_hasher(w, d, Bh::default());
+                let mut c = CountMinSketch::<u64>::with_params(w, d);
+                let mut c2 = CountMinSketch::<u64>::with_params(w, d);
+                for x in &keys {
+                    if a.add(x) != b.add(x) {
+                        e.fails.push(format!("cms with_params({}, {}) vs with_params_and_hasher(default): add({}) differs", w, d, x));
+                    }
+                    c2.add(x);
+                }
+                c.extend(keys.iter().cloned());
+                for y in &probes {
+                    if a.query_point(y) != b.query_point(y) || c.query_point(y) != c2.query_point(y) {
+                        e.fails.push(format!("cms w={} d={}: convenience constructor / Extend disagree with the generic path on query_point({})", w, d, y));
+                        break;
+                    }
+                }
+                let x = CountMinSketch::<u64>::with_point_query_properties(0.01, 0.1);
+                let y = CountMinSketch::<u64, usize, Bh>::with_point_query_properties_and_hasher(0.01, 0.1, Bh::default());
+                if (x.w(), x.d()) != (y.w(), y.d()) {
+                    e.fails.push("cms with_point_query_properties delegates with different parameters".into());
+                }
+                e.evals += 1;
+            }
+            "C17" | "C03" => {
+                let b = e.rng.range(4, 12) as usize;
+                let mut a = HyperLogLog::<u64>::new(b);
+                let mut g = HyperLogLog::<u64, Bh>::with_hash(b, Bh::default());
+                let mut c = HyperLogLog::<u64>::new(b);
+                let mut c2 = HyperLogLog::<u64>::new(b);
+                for x in &keys {
+                    a.add(x);
+                    g.add(x);
+                }
+                c.extend(keys.iter().cloned());
+                c2.extend(keys.iter());
+                if a.registers() != g.registers() || a.registers() != c.registers() || a.registers() != c2.registers() || a.count() != c.count() {
+                    e.fails.push(format!("hll b={}: new / with_hash(default) / Extend give different registers", b));
+                }
+                // add(x) is add_hashed(buildhasher.hash_one(x))
+                use std::hash::BuildHasher;
+                let mut h = HyperLogLog::<u64>::new(b);
+                for x in &keys {
+                    h.add_hashed(a.buildhasher().hash_one(x));
+                }
+                if h.registers() != a.registers() {
+                    e.fails.push(format!("hll b={}: add(x) differs from add_hashed(hash_one(x))", b));
+                }
+                e.evals += 1;
+            }
+            "C18" | "C05" => {
+                let k = e.rng.range(1, 20) as usize;
+                let seed = e.rng.next();
+                let mut a = ReservoirSampling::<u64, ScriptRng>::new(k, ScriptRng::new(seed));
+                let mut b = ReservoirSampling::<u64, ScriptRng>::new(k, ScriptRng::new(seed));
+                for x in &keys {
+                    a.add(*x);
+                }
+                b.extend(keys.iter().cloned());
+                if a.reservoir() != b.reservoir() || a.i() != b.i() {
+                    e.fails.push(format!("reservoir k={}: Extend differs from repeated add", k));
+                }
+                e.evals += 1;
+            }
+            "C10" => {
+                use pdatastructs::topk::cmsheap::CMSHeap;
+                let k = e.rng.range(1, 6) as usize;
+                let mut a = CMSHeap::<u64>::new(k, CountMinSketch::with_params(50, 3));
+                let mut b = CMSHeap::<u64>::new(k, CountMinSketch::with_params(50, 3));
+                for x in &keys {
+                    a.add(*x);
+                }
+                b.extend(keys.iter().cloned());
+                if a.iter().collect::<Vec<_>>() != b.iter().collect::<Vec<_>>() {
+                    e.fails.push(format!("cmsheap k={}: Extend differs from repeated add", k));
+                }
+                e.evals += 1;
+            }
+            _ => {}
         }
     }
 }
